@@ -1079,6 +1079,13 @@ class Module(ABC):
         boolean_cols = channel_names
         view[boolean_cols] = view[boolean_cols].astype(bool)
 
+        # Properties that are the same in all compartments of the branch (checked above)
+        # are kept exactly; their mean can be off by a rounding error.
+        for col in ["capacitance", "axial_resistivity"] + list(
+            dict.fromkeys(channel_param_names + channel_state_names)
+        ):
+            view[col] = self.nodes[col].to_numpy()[0]
+
         # Special treatment for the lengths and radiuses. These are not being set as
         # the average because we:
         # 1) Want to maintain the total length of a branch.
